@@ -26,20 +26,29 @@ Record nf_opinfo := {
   oi_tick : bool;              (* timer tick (else: a request) *)
   oi_forced : list nf_type;    (* types that may be forced: the forced request's type; for a tick the types of
                                   the forced entries of stashed_notifications *)
-  oi_remposs : bool;           (* tick with no Problem stashed and no Problem withheld: a Problem sent now IS a reminder *)
+  oi_kp : Z;                   (* tick: how many Problem notifications the stash and the withheld types can account
+                                  for at most (Problem entries of stashed_notifications, plus one if a Problem is withheld
+                                  and the last check result still is a problem); a further Problem sent by the same tick
+                                  IS the reminder *)
   oi_pdefer : bool             (* an unforced Problem may be processed: tick, or unforced Problem request *)
 }.
 
 Definition nf_mayforce (oi : nf_opinfo) (ty : nf_type) : bool := existsb (nf_type_eqb ty) (oi_forced oi).
 
+Fixpoint nf_count_problem (l : list nf_stashed) : Z :=
+  match l with
+  | [] => 0
+  | h :: r => (if nf_type_eqb (sh_type h) NfProblem then 1 else 0) + nf_count_problem r
+  end.
+
 Definition nf_opinfo_of (stash : list nf_stashed) (sup_problem : bool) (o : nf_op) : nf_opinfo :=
   match o with
   | NfRequest now x ty force =>
-      {| oi_now := now; oi_ctx := x; oi_tick := false; oi_forced := if force then [ty] else []; oi_remposs := false;
+      {| oi_now := now; oi_ctx := x; oi_tick := false; oi_forced := if force then [ty] else []; oi_kp := 0;
          oi_pdefer := nf_type_eqb ty NfProblem && negb force |}
   | NfTick now x =>
       {| oi_now := now; oi_ctx := x; oi_tick := true; oi_forced := map sh_type (filter sh_force stash);
-         oi_remposs := negb (existsb (fun h => nf_type_eqb (sh_type h) NfProblem) stash) && negb sup_problem;
+         oi_kp := nf_count_problem stash + (if sup_problem && nf_reason_applies x NfProblem then 1 else 0);
          oi_pdefer := true |}
   end.
 
@@ -55,11 +64,12 @@ Record nf_ghost := {
   g_ps : bool;             (* a Problem passed the notification's filters since the last NfoClr / times.begin deferral *)
   g_bad : bool;            (* ... and after it a non-Custom, non-Problem, non-Recovery notification passed them *)
   g_rem : option Z;        (* instant of the last Problem that passed the filters (no deferral, clock not set back since) *)
-  g_tm : Z                 (* instant of the current operation *)
+  g_tm : Z;                (* instant of the current operation *)
+  g_cnt : Z                (* Problem notifications that reached the per-user loop so far in the current operation *)
 }.
-Definition nf_mkg inc pre last ps bad rem tm : nf_ghost :=
-  {| g_inc := inc; g_pre := pre; g_last := last; g_ps := ps; g_bad := bad; g_rem := rem; g_tm := tm |}.
-Definition nf_ghost0 : nf_ghost := nf_mkg [] [] [] false false None 0.
+Definition nf_mkg inc pre last ps bad rem tm cnt : nf_ghost :=
+  {| g_inc := inc; g_pre := pre; g_last := last; g_ps := ps; g_bad := bad; g_rem := rem; g_tm := tm; g_cnt := cnt |}.
+Definition nf_ghost0 : nf_ghost := nf_mkg [] [] [] false false None 0 0.
 
 Definition nf_add_all (sent l : list Z) : list Z := fold_left (fun l u => nf_npu_add u l) sent l.
 Definition nf_upd_all (st : Z) (sent : list Z) (l : list (Z * Z)) : list (Z * Z) :=
@@ -72,11 +82,11 @@ Definition nf_may_defer (c : nf_cfg) (oi : nf_opinfo) : bool :=
 
 Definition nf_g_mask (c : nf_cfg) (oi : nf_opinfo) (g : nf_ghost) : nf_ghost :=
   if nf_may_defer c oi
-  then nf_mkg (g_inc g) (g_pre g) (g_last g) false (g_bad g) None (g_tm g) else g.
+  then nf_mkg (g_inc g) (g_pre g) (g_last g) false (g_bad g) None (g_tm g) (g_cnt g) else g.
 
 Definition nf_g_start (c : nf_cfg) (oi : nf_opinfo) (g : nf_ghost) : nf_ghost :=
   nf_g_mask c oi (nf_mkg (g_inc g) (g_pre g) (g_last g) (g_ps g) (g_bad g)
-                         (if oi_now oi <? g_tm g then None else g_rem g) (oi_now oi)).
+                         (if oi_now oi <? g_tm g then None else g_rem g) (oi_now oi) 0).
 
 Definition nf_rec_deferred (oi : nf_opinfo) : bool :=
   cx_per_closed (oi_ctx oi) && (oi_tick oi || negb (nf_mayforce oi NfRecovery)).
@@ -87,15 +97,15 @@ Definition nf_g_ev (c : nf_cfg) (oi : nf_opinfo) (g : nf_ghost) (e : nf_oev) : n
     | NfoClr =>
         (* a Recovery withheld only by the closed period is kept for re-sending (suppressed_notifications):
            the incident is not over for the recipients *)
-        nf_mkg (if nf_rec_deferred oi then g_inc g else []) (g_inc g) [] false false (g_rem g) (g_tm g)
+        nf_mkg (if nf_rec_deferred oi then g_inc g else []) (g_inc g) [] false false (g_rem g) (g_tm g) (g_cnt g)
     | NfoDone ty sent =>
         if nf_type_eqb ty NfProblem then
           nf_mkg (nf_add_all sent (g_inc g)) []
                  (nf_upd_all (nf_api_state (nfc_svc c) (cx_raw (oi_ctx oi))) sent (g_last g))
-                 true false (Some (oi_now oi)) (g_tm g)
-        else if nf_type_eqb ty NfRecovery then nf_mkg [] [] [] false false (g_rem g) (g_tm g)
-        else if nf_type_eqb ty NfCustom then nf_mkg (g_inc g) [] (g_last g) (g_ps g) (g_bad g) (g_rem g) (g_tm g)
-        else nf_mkg (g_inc g) [] (g_last g) (g_ps g) true (g_rem g) (g_tm g)
+                 true false (Some (oi_now oi)) (g_tm g) (g_cnt g + 1)
+        else if nf_type_eqb ty NfRecovery then nf_mkg [] [] [] false false (g_rem g) (g_tm g) (g_cnt g)
+        else if nf_type_eqb ty NfCustom then nf_mkg (g_inc g) [] (g_last g) (g_ps g) (g_bad g) (g_rem g) (g_tm g) (g_cnt g)
+        else nf_mkg (g_inc g) [] (g_last g) (g_ps g) true (g_rem g) (g_tm g) (g_cnt g)
     end.
 
 Definition nf_g_evs (c : nf_cfg) (oi : nf_opinfo) (g : nf_ghost) (es : list nf_oev) : nf_ghost :=
@@ -139,7 +149,7 @@ Definition nf_check (c : nf_cfg) (oi : nf_opinfo) (g : nf_ghost) (e : nf_oev) : 
       let st := nf_api_state (nfc_svc c) (cx_raw x) in
       let isp := nf_type_eqb ty NfProblem in
       let isra := nf_type_eqb ty NfRecovery || nf_type_eqb ty NfAck in
-      let isrem := isp && oi_tick oi && oi_remposs oi in
+      let isrem := isp && oi_tick oi && (oi_kp oi <=? g_cnt g) in
       (* 1: filters / forced *)
       if negb (forallb (nf_okA c oi ty) sent) then NfVBad 1
       (* 3: no duplicate Problem for the same state (requests are never reminders) *)
